@@ -131,7 +131,8 @@ CHECKS["C04"] = dict(
     level_text="Per (group, integration) every successful notification must be justified w.r.t. the previous one (new firing alert, newly resolved alert with send_resolved, > repeat_interval, or a quiet moment in between); an unchanged firing group is re-notified by repeat_interval + group_interval + slack; a notification without firing alerts directly follows one with firing alerts. Restart and reload are ordinary events (real snapshot files).",
     level_note="repeat_interval 2m, group_interval 30s, retention 10m; two integrations (send_resolved true/false).",
     assumptions=FAPP_ASSUME,
-    units=[dict(pkg="app", test="TestVerifC04App", shards_quick=16, shards_thorough=16, budget_quick=200, budget_thorough=1500)],
+    units=[dict(pkg="app", test="TestVerifC04App", shards_quick=16, shards_thorough=16, budget_quick=200, budget_thorough=1500),
+           dict(pkg="notify", test="TestVerifC04Sizes", shards_quick=1, shards_thorough=1, budget_quick=60, budget_thorough=300)],
 )
 CHECKS["C05"] = dict(
     level="model_checking",
